@@ -51,6 +51,10 @@ type scenario struct {
 	// AttachExt attaches a receive extension (wsflate.MessageState) to the Reader although the
 	// state does not say "extended": reserved bits must still be refused by the header check.
 	AttachExt bool
+	// Stalls: frame-start offsets (Reader entry) at which the transport reports one transient error
+	// with no data before serving the frame; the caller retries. The verdict on the offending frame
+	// must not depend on it.
+	Stalls []int
 	// Announce: when non-zero the offending frame's header announces this many payload bytes
 	// although only len(Payload) follow (the reader must decide on the header alone).
 	Announce int64
@@ -108,7 +112,7 @@ func (s scenario) state() ws.State {
 func (s scenario) describe() interface{} {
 	return map[string]interface{}{
 		"entry": s.Entry, "side": s.Side.String(), "extended": s.Extended, "limit": s.Limit, "bad_index": s.Bad,
-		"broken": s.Broken.String(), "too_large": s.TooLarge, "chunks": s.Chunks, "bufsize": s.BufSize, "frames": ref.Describe(s.Frames), "attach_ext": s.AttachExt, "offending_frame_announces": s.Announce,
+		"broken": s.Broken.String(), "too_large": s.TooLarge, "chunks": s.Chunks, "bufsize": s.BufSize, "frames": ref.Describe(s.Frames), "attach_ext": s.AttachExt, "offending_frame_announces": s.Announce, "stall_at_frame_starts": s.Stalls,
 	}
 }
 
@@ -140,6 +144,9 @@ func readUntil(r io.Reader, bufSize, maxIdle int) ([]byte, error) {
 	for {
 		n, err := r.Read(buf)
 		out = append(out, buf[:n]...)
+		if err == tx.ErrTransient && n == 0 {
+			continue // nothing consumed (generated at frame starts only): the caller retries
+		}
 		if err != nil {
 			return out, err
 		}
@@ -184,6 +191,12 @@ func openStart(valid []ref.Frame) int {
 func runReader(s scenario) error {
 	data := s.wire()
 	src := tx.NewSrc(data, s.Chunks)
+	if len(s.Stalls) > 0 {
+		src.StallAt = map[int]bool{}
+		for _, off := range s.Stalls {
+			src.StallAt[off] = true
+		}
+	}
 	_, hdrEnd := s.layout()
 	idle := 2*len(s.Frames) + 4
 	valid := s.Frames
@@ -194,6 +207,15 @@ func runReader(s scenario) error {
 	evs := ref.Events(valid[:os])
 	var ictl [][]byte
 	rd := &wsutil.Reader{Source: src, State: s.state(), MaxFrameSize: s.Limit, Extensions: s.exts()}
+	nextFrame := func() (ws.Header, error) {
+		for tries := 0; ; tries++ {
+			h, err := rd.NextFrame()
+			if err == tx.ErrTransient && tries < 64 {
+				continue
+			}
+			return h, err
+		}
+	}
 	rd.OnIntermediate = func(h ws.Header, r io.Reader) error {
 		if s.LazyHandler {
 			// a handler may legally ignore (part of) the payload: the reader must skip the rest itself
@@ -226,7 +248,7 @@ func runReader(s scenario) error {
 			wantIctl = append(wantIctl, e.Payload)
 			continue
 		}
-		h, err := rd.NextFrame()
+		h, err := nextFrame()
 		if err != nil {
 			return fmt.Errorf("NextFrame before %v (valid part of the stream): %v", e, err)
 		}
@@ -242,7 +264,7 @@ func runReader(s scenario) error {
 		}
 	}
 	if s.Bad < 0 {
-		if _, err := rd.NextFrame(); err != io.EOF {
+		if _, err := nextFrame(); err != io.EOF {
 			return fmt.Errorf("acceptable stream: NextFrame at the end returned %v", err)
 		}
 		return nil
@@ -259,12 +281,12 @@ func runReader(s scenario) error {
 		}
 	}
 	if len(open) == 0 {
-		_, err := rd.NextFrame()
+		_, err := nextFrame()
 		if e := finish(err); e != nil {
 			return e
 		}
 	} else {
-		if _, err := rd.NextFrame(); err != nil {
+		if _, err := nextFrame(); err != nil {
 			return fmt.Errorf("NextFrame for the open message: %v", err)
 		}
 		p, err := readUntil(rd, s.BufSize, idle)
@@ -664,6 +686,16 @@ func TestRuleViolation(t *testing.T) {
 		s.BufSize = rapid.SampledFrom([]int{0, 1, 3, 64}).Draw(t, "bufsize")
 		s.AttachExt = rapid.IntRange(0, 3).Draw(t, "attachExt") == 0
 		s.LazyHandler = rapid.IntRange(0, 3).Draw(t, "lazyHandler") == 0
+		if s.Entry == "Reader" && rapid.IntRange(0, 3).Draw(t, "stalls?") == 0 {
+			pos := 0
+			for i, f := range s.Frames {
+				if i <= s.Bad && i > 0 && rapid.IntRange(0, 1).Draw(t, "stall") == 0 {
+					s.Stalls = append(s.Stalls, pos)
+				}
+				pos += len(f.Encode())
+			}
+			hx.Class(fmt.Sprintf("Reader/stalls=%d", min(len(s.Stalls), 3)))
+		}
 		hx.Eval()
 		note(s)
 		if err := run(s); err != nil {
